@@ -318,4 +318,41 @@ example : staticMemberCallPath "Quiet".toList (.tdyn "Loud".toList) "name".toLis
 /-- a method call compiled for its effect always emits a statement, whatever the call form -/
 theorem call_forms_emit_statement : effectEmitsStatement .call = true ∧ effectEmitsStatement .dynCall = true := ⟨rfl, rfl⟩
 
+/-! ## overlapping inherent impls: `x.m()` and `Base::m(x)` -/
+
+/-- **both inherent call forms pick the same impl block** whenever an impl of a single instantiation
+of `Base` defines the method (the only situation in which the two lookups can differ): for every
+impl table, receiver type of constructor `Base` and method the dot form finds. -/
+theorem inherent_overlap_forms_agree (E : InhEnv) (base m : Name) (t : Ty) (f : InhFound)
+    (hb : constrName t = some base) (hov : instantiationImplDefines E base m = true)
+    (hdot : dotFormLookup E t m = some f) : pathFormLookup E base (some t) m = some f := by
+  unfold dotFormLookup at hdot
+  simp [pathFormLookup, hov, hb, hdot]
+
+/-- without such an impl the path form is the lookup under the bare constructor, as it always was -/
+theorem path_form_without_overlap (E : InhEnv) (base m : Name) (a : Option Ty)
+    (hov : instantiationImplDefines E base m = false) :
+    pathFormLookup E base a m = lookupInherentMethod E (.tstruct base) m := by
+  simp [pathFormLookup, hov]
+
+/-- the exact impl wins over the generic one (dot form, hence also path form) -/
+theorem exact_instantiation_wins (E : InhEnv) (t : Ty) (m : Name)
+    (h : E.exact.any (fun r => tyCompact r.1 == tyCompact t && r.2.contains m) = true) :
+    dotFormLookup E t m = some (.exact (tyCompact t)) := by
+  simp only [dotFormLookup, lookupInherentMethod]
+  rw [if_pos h]
+
+/-- non-vacuity and the former defect: `impl[T] Cell[T] { describe }` + `impl Cell[int32] { describe }`,
+receiver `Cell[int32]` — the dot form finds the instantiation's impl, the bare lookup (the path form
+before the fix) the generic one -/
+example :
+    let cellInt : Ty := .tapp (.tstruct "Cell".toList) [.prim .int32]
+    let E : InhEnv := { exact := [(cellInt, ["describe".toList, "only".toList])], constr := [("Cell".toList, ["describe".toList])] }
+    dotFormLookup E cellInt "describe".toList = some (.exact "Cell[int32]".toList) ∧
+    pathFormLookup E "Cell".toList (some cellInt) "describe".toList = some (.exact "Cell[int32]".toList) ∧
+    lookupInherentMethod E (.tstruct "Cell".toList) "describe".toList = some (.constr "Cell".toList) ∧
+    pathFormLookup E "Cell".toList (some cellInt) "only".toList = some (.exact "Cell[int32]".toList) ∧
+    pathFormLookup E "Cell".toList (some (.tapp (.tstruct "Cell".toList) [.prim .bool])) "describe".toList = some (.constr "Cell".toList) := by
+  decide
+
 end Goml.Mangle
